@@ -43,11 +43,12 @@ CHECKS = {
              ref="4.9", tech="symbolic execution of the lexer with symbolic start column/line (symx + z3 LIA queries) against an independent position oracle"),
  "C11": dict(text="Differential check of the real literal parsers against an independent C11 6.4.4/6.4.5 recogniser: every literal of <=N symbolic characters (numeric and quoted alphabets) in a valid family is one clean token; every member of the malformed families M1..M15 carries its diagnostic.",
              ref="4.11", tech="differential symbolic execution (symx + z3): reference C-constant recogniser vs the real lexer on the same symbolic literal"),
+ "C15": dict(text="The real main() is executed symbolically over a symbolic file-system model (a tree of <= K entries with symbolic names and kinds; pathlib / glob / git check-ignore answered from the model by their documented contracts): for every argument list (none, one, two incl. repeats, with a nonexistent path, with --use-gitignore) the multiset of analysed files equals the property's selection, each under its base name; bad suffixes are rejected with a message, a missing path gives a non-zero status. The model is validated against the real OS on sampled witnesses.",
+             ref="4.15", tech="symbolic execution of norminette.__main__.main with a contract-level symbolic file-system stub (symx + z3); witnesses and counterexamples replayed on real directory trees through the real CLI"),
  "C10": dict(text="Token text equals the (normalised) consumed source span, progress and BAD_LEXEME accounting, for every window of <=N symbolic characters.",
              ref="4.10", tech="symbolic execution of the lexer (symx + z3) against an independent normaliser with its own C tables"),
 }
 NA = {
- "C15": "file discovery is defined by the OS (glob, pathlib, git subprocess); a symbolic file-system stub would verify the stub, not the system (DESIGN.md 4.15)",
 }
 PENDING = "check not built yet in this session (see DESIGN.md); will be claimed once its harness exists"
 ALL = [f"C{i:02d}" for i in range(1, 20)]
